@@ -12,8 +12,8 @@ Declarative statements only; they mention the model's *types* (`Params`, masks a
 * `Masked tm fm j k` — cell `(j, k)` lies in some time band or some frequency band.
 * `MaskedImage x tm fm y` — `y` has the shape of `x`, is `0` on masked cells and equal to `x`
   elsewhere.
-* `Interpolates` / `Orthogonal` — the linear system `polyharmonic_spline(order=1)` solves
-  for three 1-D knots.
+* `SplineSystem` — the linear system `polyharmonic_spline(order=1)` solves for three 1-D
+  knots; `SplineSystemPhi φ` — the same for any radial function (`phi3`: order 3).
 * `InRange lo hi x` — every entry of `x` lies in `[lo, hi]`.
 
 Mathlib-free (the driver evaluates the `…b` versions).
@@ -65,9 +65,6 @@ structure MaskedImage (x : List (List Rat)) (tm fm : List (Int × Int)) (y : Lis
   same : ∀ j k, (hj : j < y.length) → (hk : k < (y[j]).length) → (hx : j < x.length) →
     (hxk : k < (x[j]).length) → ¬ Masked tm fm j k → y[j][k] = x[j][k]
 
-/-- `|x|` (the 1-D `cdist`). -/
-def rabs (x : Rat) : Rat := if 0 ≤ x then x else -x
-
 /-- Order-1 polyharmonic spline in one dimension (`_apply_interpolation`, `φ(r) = r`):
 `x ↦ Σ wᵢ |x − cᵢ| + v₁ x + v₀`. -/
 def splineEval (c1 c2 c3 w1 w2 w3 v1 v0 : Rat) (x : Rat) : Rat :=
@@ -80,6 +77,23 @@ structure SplineSystem (k : Knots) (w1 w2 w3 v1 v0 : Rat) : Prop where
   at1 : splineEval k.c1 k.c2 k.c3 w1 w2 w3 v1 v0 k.c1 = k.c1
   at2 : splineEval k.c1 k.c2 k.c3 w1 w2 w3 v1 v0 k.c2 = k.y2
   at3 : splineEval k.c1 k.c2 k.c3 w1 w2 w3 v1 v0 k.c3 = k.c3
+  orth0 : w1 + w2 + w3 = 0
+  orth1 : w1 * k.c1 + w2 * k.c2 + w3 * k.c3 = 0
+
+/-- `_phi(r, 3) = r ** 3`, the radial function of the order-3 spline. -/
+def phi3 (r : Rat) : Rat := r * r * r
+
+/-- Polyharmonic spline in one dimension for a radial function `φ` (`_apply_interpolation`):
+`x ↦ Σ wᵢ φ(|x − cᵢ|) + v₁ x + v₀`.  `φ = id` is `splineEval`. -/
+def splineEvalPhi (φ : Rat → Rat) (c1 c2 c3 w1 w2 w3 v1 v0 : Rat) (x : Rat) : Rat :=
+  w1 * φ (rabs (x - c1)) + w2 * φ (rabs (x - c2)) + w3 * φ (rabs (x - c3)) + v1 * x + v0
+
+/-- The system `_solve_interpolation` solves for the three knots and a radial function `φ`:
+interpolation rows and orthogonality rows, as `SplineSystem`. -/
+structure SplineSystemPhi (φ : Rat → Rat) (k : Knots) (w1 w2 w3 v1 v0 : Rat) : Prop where
+  at1 : splineEvalPhi φ k.c1 k.c2 k.c3 w1 w2 w3 v1 v0 k.c1 = k.c1
+  at2 : splineEvalPhi φ k.c1 k.c2 k.c3 w1 w2 w3 v1 v0 k.c2 = k.y2
+  at3 : splineEvalPhi φ k.c1 k.c2 k.c3 w1 w2 w3 v1 v0 k.c3 = k.c3
   orth0 : w1 + w2 + w3 = 0
   orth1 : w1 * k.c1 + w2 * k.c2 + w3 * k.c3 = 0
 
